@@ -1,20 +1,10 @@
-use pdfmon::mkpdf::*;
-use pdfmon::with_file;
-use pdfmon::doc::*;
+use pdf::file::{FileOptions, ScanItem};
 fn main(){
-    let bytes = simple_doc(&skeleton(3), 1, vec![]);
-    println!("{}", String::from_utf8_lossy(&bytes));
-    for cfg in CFGS {
-        let n = with_file!(bytes.clone(), cfg, b"", |f| f.map(|f| (f.num_pages(), f.get_page(2).map(|p| p.media_box().map(|r| r.right)))));
-        println!("{} -> {:?}", cfg.name(), n);
+    for name in ["example.pdf","offset.pdf","xelatex.pdf","libreoffice.pdf","encrypted_aes_128.pdf","jpeg.pdf"] {
+        let bytes = std::fs::read(format!("/repo/files/{}",name)).unwrap();
+        let f = FileOptions::uncached().load(bytes).unwrap();
+        let mut n_ok=0; let mut n_tr=0; let mut err=None;
+        for it in f.scan() { match it { Ok(ScanItem::Object(..)) => n_ok+=1, Ok(ScanItem::Trailer(_)) => n_tr+=1, Err(e) => { err=Some(format!("{}",e).chars().take(80).collect::<String>()); break; } } }
+        println!("{}: objects={} trailers={} err={:?}", name, n_ok, n_tr, err);
     }
-    // xref stream + objstm
-    let mut w = W::new(b"junk junk\n", "1.5");
-    w.free(0,0,65535);
-    let sk = skeleton(2);
-    w.obj(1,0,&sk[0].1);
-    w.objstm(5, &[(2, sk[1].1.clone()), (3, sk[2].1.clone()), (4, sk[3].1.clone())], b"\n", 0, &flate_filter);
-    w.xref_stream(6, vec![(b"Root".to_vec(), rf(1))], 7, &[], &flate_filter);
-    let n = with_file!(w.buf.clone(), CFGS[0], b"", |f| f.map(|f| (f.num_pages(), f.get_page(1).map(|p| p.media_box().map(|r| r.right)))));
-    println!("xrefstream -> {:?}", n);
 }
